@@ -27,6 +27,9 @@ exe = executable('main', 'main.c', gen_c, dependencies: [mdep, spdep, sp2.get_va
 exe2 = executable('tool', 'tool.c', link_with: b.get_static_lib(), native: false)
 pkg.generate(m, name: 'mlib', description: 'm', requires: [], libraries: [z], extra_cflags: ['-DX_B', '-DX_A'], variables: ['zvar=1', 'avar=2'], subdirs: ['sub2', 'sub1'])
 pkg.generate(b, description: 'b lib', requires: m)
+# several constraints per package (kept in a set internally), public and private
+pkg.generate(name: 'reqs', description: 'r', version: '1', requires: ['foo>=1.0', 'foo!=1.3', 'foo!=1.4', 'foo<2.0', 'zed>1', 'zed>=1.1', 'zed!=1.5'],
+             requires_private: ['bar<3.0', 'bar<=2.9', 'bar>=2.0', 'bar!=2.5', 'bar=2.2'])
 install_data('data/z.txt', 'data/a.txt', install_dir: get_option('datadir') / 'rich')
 install_headers('inc/pub_z.h', 'inc/pub_a.h', subdir: 'rich')
 install_man('man/rich.1', 'man/arich.3')
